@@ -152,14 +152,45 @@ var c09JSONEntries = []struct {
 	name string
 	f    func(doc []byte) error
 }{
-	{"json:Tx", func(d []byte) error { var tx bt.Tx; return json.Unmarshal(d, &tx) }},
-	{"json:Tx.NodeJSON", func(d []byte) error { tx := bt.NewTx(); return json.Unmarshal(d, tx.NodeJSON()) }},
-	{"json:Txs.NodeJSON", func(d []byte) error { var txs bt.Txs; return json.Unmarshal(d, txs.NodeJSON()) }},
+	// the destination is a new value, or one that already holds something (what an earlier
+	// document left there, nil entries of a list made with make)
+	{"json:Tx", func(d []byte) error {
+		tx := bt.Tx{}
+		if len(d)%3 == 1 {
+			tx = *c01Dirty()
+		}
+		return json.Unmarshal(d, &tx)
+	}},
+	{"json:Tx.NodeJSON", func(d []byte) error {
+		tx := bt.NewTx()
+		if len(d)%3 == 1 {
+			tx = c01Dirty()
+		}
+		return json.Unmarshal(d, tx.NodeJSON())
+	}},
+	{"json:Txs.NodeJSON", func(d []byte) error {
+		var txs bt.Txs
+		switch len(d) % 4 {
+		case 1:
+			txs = make(bt.Txs, 3)
+		case 2:
+			_ = json.Unmarshal([]byte("[null]"), &txs)
+		case 3:
+			txs = bt.Txs{c01Dirty(), nil}
+		}
+		return json.Unmarshal(d, txs.NodeJSON())
+	}},
 	{"json:Output", func(d []byte) error { var o bt.Output; return json.Unmarshal(d, &o) }},
 	{"json:Output.NodeJSON", func(d []byte) error { o := &bt.Output{}; return json.Unmarshal(d, o.NodeJSON()) }},
 	{"json:UTXO", func(d []byte) error { var u bt.UTXO; return json.Unmarshal(d, &u) }},
 	{"json:UTXO.NodeJSON", func(d []byte) error { u := &bt.UTXO{}; return json.Unmarshal(d, u.NodeJSON()) }},
-	{"json:UTXOs.NodeJSON", func(d []byte) error { var us bt.UTXOs; return json.Unmarshal(d, us.NodeJSON()) }},
+	{"json:UTXOs.NodeJSON", func(d []byte) error {
+		var us bt.UTXOs
+		if len(d)%3 == 1 {
+			us = make(bt.UTXOs, 2)
+		}
+		return json.Unmarshal(d, us.NodeJSON())
+	}},
 }
 
 // Direct calls of the UnmarshalJSON methods (json.Unmarshaler), without
